@@ -189,7 +189,9 @@ func (this *ClientImpl) addAccountData(accData *AccountData) error {
 	this.walletData.AddAccount(accData)
 	err := this.save()
 	if err != nil {
-		this.walletData.DelAccount(accData.Address)
+		// remove the entry appended above (not the first entry with this address, which may be an
+		// account that was already in the wallet)
+		this.walletData.Accounts = this.walletData.Accounts[:len(this.walletData.Accounts)-1]
 		return fmt.Errorf("save error:%s", err)
 	}
 	this.accAddrs[accData.Address] = accData
